@@ -19,7 +19,7 @@ RULE = ("Bounded-exhaustive: every ordered list of 1..3 specs (forms a-b, a-, -s
         "OWS/empty-element variants, plus non-grammar text (garbage, other units, huge digit strings). Non-trivial = >=2 "
         "specs of which two overlap/touch/nest, or a clipped last-byte / suffix form, or a rejected header; enumerated cases "
         "are distinct by construction, random ones are de-duplicated by (header,size).")
-RULE += ' Also: file sizes beyond 2**53 / 2**63 / 2**64 and numbers with leading zeros or 20+ digits.'
+RULE += ' Also: the list a request got back is looked at again after the next two requests were resolved (a response still uses it); file sizes beyond 2**53 / 2**63 / 2**64 and numbers with leading zeros or 20+ digits.'
 ASSUMPTIONS = [
     "precedence between 400 and 416 when a header contains both a first>last spec and an unsatisfiable spec is not pinned: either accepted",
     "headers outside the RFC 7233 grammar only have to be rejected with 400/416 or resolved to a canonical in-bounds list (the pinned test-suite requires 'bytes=0-10,hello' to be accepted)",
@@ -46,11 +46,20 @@ def call(header, size):
     return out
 
 
+HELD = []  # [(header, size, the list object returned, a copy of it)]: a caller still uses its ranges while the next request is resolved
+HELD_BROKEN = []
+
+
 def _call(header, size):
     from baize.exceptions import MalformedRangeHeader, RangeNotSatisfiable
     from baize.responses import FileResponseMixin
     try:
         r = FileResponseMixin.parse_range(header, size)
+        for h, sz, obj, snap in HELD:
+            if [tuple(x) for x in obj] != snap and not HELD_BROKEN:
+                HELD_BROKEN.append(({"header": h, "size": sz, "then": {"header": header, "size": size}}, f"{snap} became {[tuple(x) for x in obj]}"))
+        HELD.append((header, size, r, [tuple(x) for x in r]))
+        del HELD[:-2]
         return "ok", [tuple(x) for x in r]
     except MalformedRangeHeader:
         return "400", None
@@ -274,11 +283,21 @@ def run(ctx):
         ctx.mon("asked-again")
         if again != first:
             ctx.violation("answer-depends-on-process-history", {"header": h, "size": sz}, f"first {first!r}, later {again!r}")
+    ctx.mon("earlier-result-still-intact", contracts.COUNTS["parse_range.post"])
+    for case, detail in HELD_BROKEN:
+        ctx.violation("earlier-result-changed-by-a-later-request", case, detail)
     ctx.monitors["contract-evaluations(icontract)"] = contracts.COUNTS["parse_range.post"]
 
 
 def replay(ctx, case):
     contracts.arm_parse_range()
+    if "then" in case:
+        _call(case["header"], case["size"])
+        _call(case["then"]["header"], case["then"]["size"])
+        for c, detail in HELD_BROKEN:
+            ctx.violation("earlier-result-changed-by-a-later-request", c, detail)
+        ctx.case(1)
+        return
     h, s = case["header"], case["size"]
     sp = tokenize(h)
     if sp is not None:
